@@ -103,14 +103,14 @@ def judgeMiscDump (prev new : Dump) (op : List String) (ret : Option (Int × Str
       let newGp := (new.objs.find? (fun o => !(prev.objs.any (fun p => p.gp == o.gp)))).map (·.gp)
       match newGp with
       | none =>
-        let (pd, pr) := Hw.Topo.MiscIns.insertMisc prev p name 0
+        let (pd, pr) := Hw.Topo.MiscIns.stepM prev (.misc p name 0)
         if pr == .einval then
           (if (match ret with | some c => retMatches pr c | none => false) then [] else ["misc-return-differs-from-dump-model"]) ++
           (if pd == new then [] else ["misc-state-differs-from-dump-model:" ++ firstDiff pd new])
         else ["misc-dump-model:no-new-object"]
       | some g =>
         if g ≤ mg then ["misc-dump-model:new-gp-not-fresh"] else
-        let (pd, pr) := Hw.Topo.MiscIns.insertMisc prev p name (g - mg - 1)
+        let (pd, pr) := Hw.Topo.MiscIns.stepM prev (.misc p name (g - mg - 1))
         (if (match ret with | some c => retMatches pr c | none => false) then [] else ["misc-return-differs-from-dump-model"]) ++
         (if pd == new then [] else ["misc-state-differs-from-dump-model:" ++
           (match Hw.Topo.Restrict.dumpDiff pd new with | some s => s | none => "?")])
